@@ -1,3 +1,4 @@
 (* C03 proofs: see Proofs1 (closure, classes, sinks), Proofs2 (repository logic on any valid labelling),
-   Proofs3 (walks, Jarvis-Shier), Proofs4 (_compute_period on any valid BFS tree), Proofs5 (specification BFS). *)
-From QE Require Export C03.Proofs1 C03.Proofs2 C03.Proofs3 C03.Proofs4 C03.Proofs5.
+   Proofs3 (walks, Jarvis-Shier), Proofs4 (_compute_period on any valid BFS tree), Proofs5 (specification BFS),
+   Proofs6 (subgraph of a recurrent class, one-node cases, lcm rule of MarkovChain.period, is_aperiodic). *)
+From QE Require Export C03.Proofs1 C03.Proofs2 C03.Proofs3 C03.Proofs4 C03.Proofs5 C03.Proofs6.
